@@ -17,7 +17,8 @@ from .model import AnalysisError, Program, REPO, PKG
 
 
 class V:
-    def __init__(self, name, path, edits, expect='fire', key=None, why=''):
+    def __init__(self, name, path, edits, expect='fire', key=None, why='', transform=None):
+        self.transform = transform      # whole-package behaviour-preserving rewrite (sa/transforms.py)
         self.name = name
         self.path = path                # file relative to the package root, e.g. 'graph/traversal.py'
         self.edits = edits              # list of (old, new) exact-once text replacements
@@ -38,12 +39,26 @@ def _run_variant(args):
     prop, idx, repo = args
     sys.setrecursionlimit(10000)
     mod = importlib.import_module(f'sa.props.{prop.lower()}')
-    v = mod.VARIANTS[idx]
+    v = _variants(mod)[idx]
     from .callgraph import CallGraph
     from . import report
     tmp = tempfile.mkdtemp(prefix='sa_variant_')
     try:
         _copy_pkg(repo, tmp)
+        if v.transform:
+            from .transforms import apply_to_package
+            apply_to_package(os.path.join(tmp, PKG), v.transform)
+            try:
+                prog = Program(repo=tmp)
+                ctx = report.Ctx(prog, CallGraph(prog), prop, 'quick')
+                mod.check(ctx)
+            except AnalysisError as e:
+                return (v.name, 'FALSE-ALARM', f'analysis error on a behaviour-preserving rewrite: {e}')
+            known = {(k['rule'], k['construct']) for k in report.load_known() if k.get('status') == 'known'}
+            bad = [o for o in ctx.obs if not o.ok and (o.rule, o.key) not in known]
+            if bad:
+                return (v.name, 'FALSE-ALARM', f'{bad[0].key}: {bad[0].detail[:120]}')
+            return (v.name, 'ok', 'silent')
         path = os.path.join(tmp, PKG, v.path)
         with open(path, encoding='utf-8') as fp:
             src = fp.read()
@@ -79,10 +94,18 @@ def _run_variant(args):
         shutil.rmtree(tmp, ignore_errors=True)
 
 
+GLOBAL_VARIANTS = [V(f'whole-package:{t}', None, [], expect='silent', transform=t)
+                   for t in ('unparse', 'rename', 'swapcmp', 'pad', 'ifnot')]
+
+
+def _variants(mod):
+    return list(getattr(mod, 'VARIANTS', [])) + GLOBAL_VARIANTS
+
+
 def run_for(prop, repo=None, jobs=None):
     repo = repo or REPO
     mod = importlib.import_module(f'sa.props.{prop.lower()}')
-    variants = getattr(mod, 'VARIANTS', [])
+    variants = _variants(mod)
     if not variants:
         return {'variants': 0, 'note': 'no self-test variants declared for this property'}
     t0 = time.time()
